@@ -2,6 +2,7 @@ import QtVerif.Proofs.ParseExamples
 import QtVerif.Proofs.ParseReasons
 import QtVerif.Proofs.ParseNoCrash
 import QtVerif.Proofs.ParseClassify
+import QtVerif.Proofs.ParseDeps
 /-!
 C03 — The parser accepts exactly the expression grammar; printing is a parse fixpoint.
 
@@ -107,6 +108,52 @@ theorem stored_text_reparses (env : Env) (hreg : RegCanonical env.reg) (selfId :
   have hwf := accepted_wellformed env hreg s e h
   rw [print_fixpoint env e hwf]
   exact ⟨rfl, rfl, rfl⟩
+
+/-! ## Dependencies are a function of the expression's own tree -/
+
+/-- **`get_deps()` is determined by the expression's own tree**: `d` is a dependency of `e` (attached to port `selfId`)
+iff it is `$id` for a port whose value the tree reads (`$` reads `selfId`) or an own dependency (`DEPS` of the registry:
+the time kinds) of a function called somewhere in the tree. No other expression — parsed before or after, using the
+same function classes or not — enters. -/
+theorem deps_depend_only_on_tree (env : Env) (selfId d : String) (e : Expr) :
+    d ∈ deps env selfId e ↔
+      (∃ id ∈ e.portValueIds selfId, d = "$" ++ id) ∨ (∃ n ∈ callNames e, d ∈ fnDeps env n) :=
+  mem_deps_iff env selfId d e
+
+/-- **Every expression of a history re-parses to its own dependencies**: when texts are accepted one after the other
+(`hist`: port id, submitted text, accepted expression — several ports, any order, any sharing of functions), the
+canonical text of each of them parses again to the same expression, and its dependencies are those it had when it was
+accepted, whatever else the history contains. -/
+theorem reparse_same_deps_in_history (env : Env) (hreg : RegCanonical env.reg)
+    (hist : List (String × List Char × Expr)) (hacc : ∀ x ∈ hist, parse env x.2.1 = .ok x.2.2) :
+    ∀ x ∈ hist, parse env x.2.2.print.toList = .ok x.2.2 ∧
+      (parse env x.2.2.print.toList).map (deps env x.1) = .ok (deps env x.1 x.2.2) :=
+  fun x hx =>
+    have h := stored_text_reparses env hreg x.1 x.2.1 x.2.2 (hacc x hx)
+    ⟨h.1, h.2.2⟩
+
+/-- Two expressions with the same tree on the same port have the same dependencies, however they came about. -/
+theorem same_tree_same_deps (env : Env) (selfId : String) (s s' : List Char) (e e' : Expr)
+    (h : parse env s = .ok e) (h' : parse env s' = .ok e') (hp : e.print = e'.print)
+    (hreg : RegCanonical env.reg) : deps env selfId e = deps env selfId e' := by
+  have h1 := (stored_text_reparses env hreg selfId s e h).1
+  have h2 := (stored_text_reparses env hreg selfId s' e' h').1
+  rw [hp, h2] at h1
+  cases h1; rfl
+
+/-- `ADD($a, TIME())` on p1, then `TIME()` on p2, then `ADD($b, TIME())` on p3: a history meeting the hypothesis. -/
+def exHist : List (String × List Char × Expr) :=
+  [("p1", " ADD( $a ,TIME())".toList, .call "ADD" [.portVal "a", .call "TIME" []]),
+   ("p2", "TIME()".toList, .call "TIME" []),
+   ("p3", "ADD($b, TIME())".toList, .call "ADD" [.portVal "b", .call "TIME" []])]
+example : ∀ x ∈ exHist, parse exEnv x.2.1 = .ok x.2.2 := by
+  intro x hx
+  simp only [exHist, List.mem_cons, List.not_mem_nil, or_false] at hx
+  rcases hx with rfl | rfl | rfl <;> rfl
+example : deps exEnv "p1" (.call "ADD" [.portVal "a", .call "TIME" []]) = ["$a", "second"] := by decide
+example : deps exEnv "p2" (.call "TIME" []) = ["second"] := by decide
+example : deps exEnv "p3" (.call "ADD" [.portVal "b", .call "TIME" []]) = ["$b", "second"] := by decide
+example : callNames exExpr = ["ADD", "ADD", "TIME"] ∧ exExpr.portValueIds "me" = ["a", "me"] := by decide
 
 /-! ## Rejection reasons -/
 
